@@ -331,7 +331,16 @@ def write_replay(pid, sub, sig, case, f_kind, f_detail, f_where, prefix=''):
 
 def run_case(sub, case):
     """Run one case outside Hypothesis. Returns (status, sig, failure) with status in
-    {'pass','discard','fail'}."""
+    {'pass','discard','fail'}.  VERIF_REPRO tells timing-sensitive checks (C18) that a recorded case is being
+    reproduced, so that they may enforce their completion schedule more strongly."""
+    os.environ['VERIF_REPRO'] = '1'
+    try:
+        return _run_case(sub, case)
+    finally:
+        os.environ.pop('VERIF_REPRO', None)
+
+
+def _run_case(sub, case):
     try:
         sub.check(case)
     except Discard:
